@@ -7,8 +7,20 @@ repo_fixes/C11-*.diff).  `Wired` (Spec/Parents.lean) is the invariant: every sto
 pointer or cache — is the true container of its kind, owners list what points to them, live containers are
 pointed to by what they list, objects without owner hold no reference, and every registration is an object's
 own or its owner's, in the centre of the font above it.  Helper lemmas are in `Lemmas/Parents.lean`.
+
+Sections 7-9 (round 3) are about M-Cross (`DefconModel/Cross.lean`): M-Parents composed with the CROSS LINKS of the
+notification wiring - a component observes its layer and the glyph object filed under its base glyph name, an
+image observes its layer and the font's image set (after repo_fixes/C11-r3-1) - and with a delivery function
+that follows the complete table.  Helper lemmas are in `Lemmas/Cross.lean`, `Reach` / `Mentioned` / `Outside` in
+`Spec/Cross.lean`.  Section 11 is about the STORED wiring (`Cross.OState`): registrations that are kept and changed
+only at the events at which the code changes them (layer announcements heard by the six callbacks of
+component.py, begin / end of a component's own observation), proved equal to what the tree says in every
+reachable state (`Lemmas/CrossFrame.lean`: which operation changes what a layer files under which name;
+`Lemmas/CrossSync.lean`: the invariant).
 -/
 import DefconModel.Lemmas.Parents
+import DefconModel.Lemmas.Cross
+import DefconModel.Lemmas.CrossSync
 
 set_option linter.unusedSimpArgs false
 set_option linter.unusedVariables false
@@ -507,5 +519,460 @@ theorem removed_glyph_forgets_layer_partial (h : Heap) (w : Wired h) (l g : Id) 
   obtain ⟨n', e', k'⟩ := kindOf_some kg'
   have lo : owner n' = none := by rw [← ownerOf_eq e']; exact ho
   exact (detached_answers_nothing _ w' g n' e' (by rw [k']; simp) lo).2.1
+
+/-! ## 7. Cross links: the complete registration table mentions objects of the font only -/
+
+open DefconModel.Cross
+
+/-- Every state M-Cross reaches from the empty world — by any sequence of M-Parents operations, `Component()` with
+a base glyph name, `component.baseGlyph = …`, loading a glyph whose components name base glyphs,
+`glyph.decomposeComponent(c)` — has a wired heap. -/
+theorem xwired_reachable (ops : List Cross.Op) : Wired (xrun {} ops).heap := xwired_run ops wired_empty
+
+/-- What "belongs to font `f`" means, by child lists: anything but a font belongs to `f` exactly when a container
+that belongs to `f` LISTS it.  (So an object that has left every list of the font — by whatever operation —
+belongs to no font, `Outside`, and so does everything it took along.) -/
+theorem in_font_iff_listed (h : Heap) (w : Wired h) (x f : Id) (kx : h.kindOf x ≠ some .font) :
+    centreOf h x = some f ↔ ∃ p, x ∈ h.kidsOf p ∧ centreOf h p = some f := in_font_iff_listed' w kx
+
+/-- `no_wiring_left`: in every reachable state an object that is not (transitively) in a font is mentioned by NO
+registration of the complete table — neither a parent<-child or self registration nor a cross link, neither as
+observer nor as observable.  Whatever the removal path was (remove / clear of a contour, component, anchor,
+guideline, deletion or replacement of a glyph, a rename over it, deletion of a layer, decomposition of a
+component): nothing is left behind in the font's notification centre. -/
+theorem no_wiring_left (ops : List Cross.Op) (x : Id) (hx : Outside (xrun {} ops).heap x) :
+    ¬ Mentioned (xrun {} ops) x := outside_unmentioned (xwired_reachable ops) hx
+
+/-- … and conversely every registration of the complete table is between objects that belong to the font whose
+centre holds it (the image set is the font's own). -/
+theorem wiring_within_font (s : State) (w : Wired s.heap) :
+    (∀ r ∈ s.heap.regs, centreOf s.heap r.observable = some r.centre ∧ centreOf s.heap r.observer = some r.centre) ∧
+    (∀ r ∈ crossTable s, centreOf s.heap r.observer = some r.centre ∧
+      (match r.observable with
+        | .node o => centreOf s.heap o = some r.centre
+        | .imageSet f => f = r.centre)) :=
+  ⟨fun r hr => regs_in_font w hr, fun r hr => cross_in_font w hr⟩
+
+/-- An object that points to no owner (anything removed or replaced) is mentioned by no registration, and neither
+is an object owned by something that belongs to no font (what a stand-alone `Glyph()` holds). -/
+theorem loose_unmentioned (s : State) (w : Wired s.heap) (x : Id) (k : s.heap.kindOf x ≠ some .font) :
+    (s.heap.ownerOf x = none → ¬ Mentioned s x) ∧
+    (∀ p, s.heap.ownerOf x = some p → Outside s.heap p → ¬ Mentioned s x) :=
+  ⟨fun ho => outside_unmentioned w (outside_of_loose w ho k),
+   fun p ho hp => outside_unmentioned w (outside_of_owner w ho hp)⟩
+
+/-- `cross_links_exact`, components: a component `c` listed by a glyph `g` listed by a layer `l` of a font `f`
+observes EXACTLY its layer and the glyph object the layer files under its base glyph name — with the six
+registrations of `_beginBaseGlyphObservations` —, the layer alone — with the three of `_beginLayerObservations` —
+when the layer files no glyph under that name, and nothing when it names no base glyph. -/
+theorem cross_links_exact (s : State) (w : Wired s.heap) (f ls l g c : Id)
+    (kf : s.heap.kindOf f = some .font) (hs : ls ∈ s.heap.kidsOf f) (ks : s.heap.kindOf ls = some .layerSet)
+    (hl : l ∈ s.heap.kidsOf ls) (hg : g ∈ s.heap.kidsOf l) (kg : s.heap.kindOf g = some .glyph)
+    (hc : c ∈ s.heap.kidsOf g) (kc : s.heap.kindOf c = some .component) (r : XReg) :
+    (r ∈ crossTable s ∧ r.observer = c) ↔
+      ∃ b, s.baseOf c = some b ∧
+        r ∈ compRows f c (Watch.of l (s.heap.findNamed l .glyph b)) := by
+  obtain ⟨⟨_, hlay, _, _, _, hdisp⟩, _⟩ := parents_exact s.heap w f ls l g c kf hs ks hl hg kg hc
+  obtain ⟨n, en, kn⟩ := kindOf_some kc
+  rw [mem_crossTable_observer en]
+  have hi : imageWatch s.heap c = none := by simp [imageWatch, kc]
+  unfold rowsOf
+  simp only [hdisp, hi, List.append_nil]
+  cases eb : s.baseOf c with
+  | none =>
+    have : watchOf s c = none := by simp [watchOf, kc, eb]
+    simp [this]
+  | some b =>
+    have : watchOf s c = some (Watch.of l (s.heap.findNamed l .glyph b)) := by simp [watchOf, kc, eb, hdisp, hlay]
+    simp [this]
+
+/-- `cross_links_exact`, images: the image `i` of a glyph `g` listed by a layer `l` of a font `f` observes exactly
+the font's image set (ImageSet.ImageAdded / ImageDeleted / ImageChanged) and its layer (Layer.ColorChanged). -/
+theorem image_links_exact (s : State) (w : Wired s.heap) (f ls l g i : Id)
+    (kf : s.heap.kindOf f = some .font) (hs : ls ∈ s.heap.kidsOf f) (ks : s.heap.kindOf ls = some .layerSet)
+    (hl : l ∈ s.heap.kidsOf ls) (hg : g ∈ s.heap.kidsOf l) (kg : s.heap.kindOf g = some .glyph)
+    (hi : i ∈ s.heap.kidsOf g) (ki : s.heap.kindOf i = some .image) (r : XReg) :
+    (r ∈ crossTable s ∧ r.observer = i) ↔ r ∈ imageRows f i l f := by
+  obtain ⟨⟨_, hlay, _, hfont, _, hdisp⟩, _⟩ := parents_exact s.heap w f ls l g i kf hs ks hl hg kg hi
+  obtain ⟨n, en, kn⟩ := kindOf_some ki
+  rw [mem_crossTable_observer en]
+  have hw : watchOf s i = none := by simp [watchOf, ki]
+  have hiw : imageWatch s.heap i = some (l, f) := by simp [imageWatch, ki, hfont, hlay]
+  unfold rowsOf
+  simp [hdisp, hw, hiw]
+
+/-- An object outside the fonts observes nothing and nothing observes it across: the cross-link rows of the
+state do not have it as observer, and no component follows it. -/
+theorem outside_not_followed (s : State) (w : Wired s.heap) (x : Id) (hx : Outside s.heap x) :
+    rowsOf s x = [] ∧ ∀ c, watches s c x = false := by
+  constructor
+  · unfold rowsOf
+    rw [disp_exact w.toStruct, show centreOf s.heap x = none from hx]
+  · intro c
+    cases hw : watches s c x with
+    | false => rfl
+    | true =>
+      exfalso
+      unfold watches at hw
+      split at hw
+      · rename_i l o ew
+        simp only [decide_eq_true_eq] at hw
+        subst hw
+        obtain ⟨f, _, _, rest, _⟩ := watch_in_font w ew
+        have := (rest l o rfl).2.1
+        rw [show centreOf s.heap o = none from hx] at this
+        cases this
+      · cases hw
+
+/-! ## 8. Every removal path leaves nothing behind -/
+
+/-- `glyph.removeContour/Component/Anchor/Guideline(x)`: afterwards no registration of the complete table mentions
+`x` (for a component: its observations of its layer and of its base glyph are gone too). -/
+theorem remove_unwires (s : State) (w : Wired s.heap) (g x : Id) (nx : Node) (kg : s.heap.kindOf g = some .glyph)
+    (ex : s.heap.get x = some nx) (kx : nx.kind.isChild = true) (ho : s.heap.ownerOf x = some g) :
+    ¬ Mentioned (xstep s (.base (.remove g x))).1 x := by
+  have w' := xwired_step w (.base (.remove g x))
+  have eh := xstep_base_heap s (.remove g x) (fun _ => by simp)
+  have hkids : x ∈ s.heap.kidsOf g := owned_is_listed s.heap w x g ho
+  have e : step s.heap (.remove g x) = (removeChild s.heap g x, .ok) := by
+    simp [step, kg, kindOf_eq ex, kx, hkids]
+  rw [e] at eh
+  refine outside_unmentioned w' (outside_of_loose w' ?_ ?_)
+  · rw [eh]; exact (ownerOf_removeChild_self w kg ho).1
+  · rw [eh, kindOf_removeChild (kindOf_eq ex)]
+    intro hk; simp only [Option.some.injEq] at hk; rw [hk] at kx; simp [Kind.isChild] at kx
+
+/-- `glyph.decomposeComponent(c)` (which draws the base glyph's outline into the glyph and removes the component):
+afterwards no registration mentions `c`. -/
+theorem decompose_unwires (s : State) (w : Wired s.heap) (g c l : Id) (kg : s.heap.kindOf g = some .glyph)
+    (kc : s.heap.kindOf c = some .component) (ho : s.heap.ownerOf c = some g) (hl : layerOf s.heap g = some l) :
+    (xstep s (.decompose g c)).2 = .ok ∧ ¬ Mentioned (xstep s (.decompose g c)).1 c := by
+  have w' := xwired_step w (.decompose g c)
+  have hkids : c ∈ s.heap.kidsOf g := owned_is_listed s.heap w c g ho
+  have e : ∃ n, xstep s (.decompose g c) = ({ s with heap := removeChild (spawnMany s.heap g .contour n) g c }, .ok) := by
+    refine ⟨decomposeCount s l c, ?_⟩
+    simp [xstep, kg, kc, hkids, hl]
+  obtain ⟨n, e⟩ := e
+  rw [e] at w' ⊢
+  refine ⟨rfl, ?_⟩
+  obtain ⟨w1, k1⟩ := wired_spawnMany (ds := []) (g := g) (k := .contour) (by simp [Kind.isLeaf]) n w kg
+  refine outside_unmentioned w' (outside_of_loose w' ?_ ?_)
+  · exact (ownerOf_removeChild_self w1 (k1 g _ kg) (ownerOf_spawnMany n ho)).1
+  · show (removeChild (spawnMany s.heap g .contour n) g c).kindOf c ≠ some .font
+    rw [kindOf_removeChild (k1 c _ kc)]; simp
+
+/-- `del layer[name]` for a loaded glyph `g`: afterwards no registration mentions the glyph or anything it owned
+(its components' observations of their base glyphs, its image's observation of the image set included). -/
+theorem delGlyph_unwires (s : State) (w : Wired s.heap) (l g : Id) (name : String) (hl : liveLayer s.heap l = true)
+    (hf : s.heap.findNamed l .glyph name = some g) (y : Id) (hy : y = g ∨ s.heap.ownerOf y = some g) :
+    ¬ Mentioned (xstep s (.base (.delGlyph l name))).1 y := by
+  have w' := xwired_step w (.base (.delGlyph l name))
+  have eh := xstep_base_heap s (.delGlyph l name) (fun _ => by simp)
+  obtain ⟨_, d, _⟩ := delGlyph_detaches s.heap w l g name hl hf
+  obtain ⟨kl, ls, hs⟩ := liveLayer_spec hl
+  obtain ⟨hg, kg⟩ := findNamed_some hf
+  obtain ⟨f, c⟩ := layerCtx_of_live w.toStruct kl hs
+  obtain ⟨ng, eg, kng, hog, hd⟩ := glyph_of_live_layer w c hg kg
+  have e : step s.heap (.delGlyph l name) = (mark (killGlyph s.heap l g) l, .ok) := by simp [step, kl, hl, hf]
+  have ky : ∃ k, s.heap.kindOf y = some k ∧ k ≠ .font := by
+    rcases hy with e1 | e1
+    · subst e1; exact ⟨.glyph, kg, by simp⟩
+    · obtain ⟨ny, ey, _⟩ := ownerOf_some e1
+      exact ⟨ny.kind, kindOf_eq ey, fun hk => kind_ne_font_of_owner e1 (by rw [kindOf_eq ey, hk])⟩
+  obtain ⟨k, ky, knf⟩ := ky
+  refine outside_unmentioned w' (outside_of_loose w' ?_ ?_)
+  · rw [eh]; exact d y hy
+  · rw [eh, e, kindOf_mark, kindOf_killGlyph w eg kng hog ky]; simpa using knf
+
+/-- `layer.newGlyph(name)` over a loaded glyph `g` (and, through the same `_insertGlyph`, `insertGlyph` and a rename
+onto the name): afterwards no registration mentions the replaced glyph or anything it owned — in particular no
+component that named it observes the replaced object any more (the defect repaired by repo_fixes/C11-r3-1; by
+`cross_links_exact` in the state after the operation such a component observes what the layer files under the name
+then). -/
+theorem newGlyph_unwires (s : State) (w : Wired s.heap) (l g : Id) (name : String) (hl : liveLayer s.heap l = true)
+    (hf : s.heap.findNamed l .glyph name = some g) (y : Id) (hy : y = g ∨ s.heap.ownerOf y = some g) :
+    ¬ Mentioned (xstep s (.base (.newGlyph l name))).1 y := by
+  have w' := xwired_step w (.base (.newGlyph l name))
+  have eh := xstep_base_heap s (.newGlyph l name) (fun _ => by simp)
+  obtain ⟨_, d⟩ := newGlyph_replaces s.heap w l g name hl hf
+  obtain ⟨kl, ls, hs⟩ := liveLayer_spec hl
+  obtain ⟨hg, kg⟩ := findNamed_some hf
+  have e : step s.heap (.newGlyph l name) = (mark ((addGlyph s.heap l name).setDirty s.heap.next) l, .id s.heap.next) := by
+    simp [step, kl, hl]
+  obtain ⟨_, k1, _, _⟩ := wired_addGlyph w kl hs name
+  have ky : ∃ k, s.heap.kindOf y = some k ∧ k ≠ .font := by
+    rcases hy with e1 | e1
+    · subst e1; exact ⟨.glyph, kg, by simp⟩
+    · obtain ⟨ny, ey, _⟩ := ownerOf_some e1
+      exact ⟨ny.kind, kindOf_eq ey, fun hk => kind_ne_font_of_owner e1 (by rw [kindOf_eq ey, hk])⟩
+  obtain ⟨k, ky, knf⟩ := ky
+  refine outside_unmentioned w' (outside_of_loose w' ?_ ?_)
+  · rw [eh]; exact d y hy
+  · rw [eh, e, kindOf_mark, kindOf_setDirty, k1 y k ky]; simpa using knf
+
+/-- `del font.layers[name]`: afterwards no registration mentions the layer, its glyphs and lib, or anything those
+glyphs owned — whatever the order in which the layer lets go of a base glyph and of the glyph whose component
+observes it (the second defect repaired by repo_fixes/C11-r3-1). -/
+theorem delLayer_unwires (s : State) (w : Wired s.heap) (f ls l : Id) (name : String)
+    (hs : layerSetOfFont s.heap f = some ls) (hf : s.heap.findNamed ls .layer name = some l) (y : Id)
+    (hy : y = l ∨ s.heap.ownerOf y = some l ∨ ∃ k, s.heap.ownerOf k = some l ∧ s.heap.ownerOf y = some k) :
+    ¬ Mentioned (xstep s (.base (.delLayer f name))).1 y := by
+  have w' := xwired_step w (.base (.delLayer f name))
+  have eh := xstep_base_heap s (.delLayer f name) (fun _ => by simp)
+  obtain ⟨_, d, _⟩ := delLayer_detaches s.heap w f ls l name hs hf
+  obtain ⟨_, kl⟩ := findNamed_some hf
+  have e : step s.heap (.delLayer f name) = (mark (killLayer s.heap ls l) ls, .ok) := by simp [step, hs, hf]
+  have ky : ∃ k, s.heap.kindOf y = some k ∧ k ≠ .font := by
+    rcases hy with e1 | e1 | ⟨k, _, e1⟩
+    · subst e1; exact ⟨.layer, kl, by simp⟩
+    · obtain ⟨ny, ey, _⟩ := ownerOf_some e1
+      exact ⟨ny.kind, kindOf_eq ey, fun hk => kind_ne_font_of_owner e1 (by rw [kindOf_eq ey, hk])⟩
+    · obtain ⟨ny, ey, _⟩ := ownerOf_some e1
+      exact ⟨ny.kind, kindOf_eq ey, fun hk => kind_ne_font_of_owner e1 (by rw [kindOf_eq ey, hk])⟩
+  obtain ⟨k, ky, knf⟩ := ky
+  refine outside_unmentioned w' (outside_of_loose w' ?_ ?_)
+  · rw [eh]; exact d y hy
+  · rw [eh, e, kindOf_mark, kk_killLayer s.heap ls l y k ky]; simpa using knf
+
+/-! ## 9. A change travels along live links only -/
+
+/-- `change_reaches_only_linked` (extends `change_reaches_only_owners` to the complete table): when ANY object `x` is
+changed, every sender of a `*.Changed` notification and every container whose dirty flag is raised is reached
+from `x` along LIVE links — owner pointers, and the observation of a glyph object by a component that belongs to a
+glyph of the font and whose layer files that object under the component's base glyph name NOW. -/
+theorem change_reaches_only_linked (s : State) (w : Wired s.heap) (x : Id) :
+    (∀ posted, (xmutate s x).2 = .mut posted → ∀ a ∈ posted, Reach s x a) ∧
+    (∀ a ∈ (xmutate s x).1.heap.dirty, a ∈ s.heap.dirty ∨ Reach s x a) := by
+  unfold xmutate
+  cases hk : s.heap.kindOf x with
+  | none => exact ⟨fun posted hp => by simp at hp, fun a ha => Or.inl ha⟩
+  | some k =>
+    simp only
+    by_cases hlf : k.isLeaf = true
+    · simp only [hlf, if_true]
+      obtain ⟨d', e, p1, p2⟩ := xpost_sound s.base w XFUEL s.heap.dirty x .changed
+      rw [wd_self] at e p1
+      refine ⟨fun posted hp a ha => ?_, fun a ha => ?_⟩
+      · simp only [Res.mut.injEq] at hp; subst hp; exact p1 a ha
+      · rw [e] at ha; exact p2 a ha
+    · simp only [hlf]
+      have e0 : s.heap.setDirty x = wd s.heap (if x ∈ s.heap.dirty then s.heap.dirty else x :: s.heap.dirty) := by
+        have := wd_setDirty s.heap s.heap.dirty x
+        rw [wd_self] at this; exact this
+      obtain ⟨d', e, p1, p2⟩ := xpost_sound s.base w XFUEL (if x ∈ s.heap.dirty then s.heap.dirty else x :: s.heap.dirty) x .changed
+      simp only [Bool.false_eq_true, if_false]
+      rw [e0]
+      refine ⟨fun posted hp a ha => ?_, fun a ha => ?_⟩
+      · simp only [Res.mut.injEq] at hp; subst hp; exact p1 a ha
+      · rw [e] at ha
+        rcases p2 a ha with h1 | h1
+        · split at h1
+          · exact Or.inl h1
+          · simp only [List.mem_cons] at h1
+            rcases h1 with h1 | h1
+            · subst h1; exact Or.inr (Reach.refl _)
+            · exact Or.inl h1
+        · exact Or.inr h1
+
+/-- `removed_object_inert_full` (extends `detached_inert`).
+(a) Changing an object that has no dispatcher — anything removed or replaced, anything a removed glyph or layer
+    took along — sends nothing, changes no node and no registration, and raises no flag but its own.
+(b) Whatever object `x` of a font is changed — also the former base glyph of a removed component, or the former
+    glyph of a removed contour —, an object `y` that belongs to no font is neither a sender nor dirtied, and no
+    cross link leads through it; everything that is reached belongs to `x`'s font. -/
+theorem removed_object_inert_full (s : State) (w : Wired s.heap) (x : Id) :
+    (dispOf s.heap x = none →
+      (xmutate s x).1.heap.nodes = s.heap.nodes ∧ (xmutate s x).1.heap.regs = s.heap.regs ∧
+      (∀ a ∈ (xmutate s x).1.heap.dirty, a ∈ s.heap.dirty ∨ a = x) ∧
+      ((xmutate s x).2 = .mut [] ∨ (xmutate s x).2 = .err .noSuchObject)) ∧
+    (∀ y, Outside s.heap y → y ≠ x →
+      (∀ posted, (xmutate s x).2 = .mut posted → y ∉ posted) ∧
+      (y ∈ (xmutate s x).1.heap.dirty → y ∈ s.heap.dirty) ∧ rowsOf s y = [] ∧ ∀ c, watches s c y = false) ∧
+    (∀ a, centreOf s.heap x ≠ none → Reach s x a → centreOf s.heap a = centreOf s.heap x) := by
+  have A : dispOf s.heap x = none →
+      (xmutate s x).1.heap.nodes = s.heap.nodes ∧ (xmutate s x).1.heap.regs = s.heap.regs ∧
+      (∀ a ∈ (xmutate s x).1.heap.dirty, a ∈ s.heap.dirty ∨ a = x) ∧
+      ((xmutate s x).2 = .mut [] ∨ (xmutate s x).2 = .err .noSuchObject) := by
+    intro hd
+    unfold xmutate
+    cases hk : s.heap.kindOf x with
+    | none => exact ⟨rfl, rfl, fun a ha => Or.inl ha, Or.inr rfl⟩
+    | some k =>
+      simp only
+      by_cases hlf : k.isLeaf = true
+      · simp only [hlf, if_true]
+        rw [xpost_silent s.base XFUEL s.heap x .changed hd]
+        exact ⟨rfl, rfl, fun a ha => Or.inl ha, Or.inl rfl⟩
+      · simp only [hlf, Bool.false_eq_true, if_false]
+        have hd' : dispOf (s.heap.setDirty x) x = none := by
+          rw [dispOf_congr (h := s.heap) (fun i => by simp)]; exact hd
+        rw [xpost_silent s.base XFUEL (s.heap.setDirty x) x .changed hd']
+        refine ⟨by unfold Heap.setDirty; split <;> rfl, by simp, fun a ha => ?_, Or.inl rfl⟩
+        unfold Heap.setDirty at ha
+        split at ha
+        · exact Or.inl ha
+        · simp only [List.mem_cons] at ha
+          rcases ha with ha | ha
+          · exact Or.inr ha
+          · exact Or.inl ha
+  refine ⟨A, fun y hy hne => ?_, fun a hx r => reach_in_font w r hx⟩
+  obtain ⟨n1, n2⟩ := outside_not_followed s w y hy
+  by_cases hx : centreOf s.heap x = none
+  · -- the changed object is outside the fonts itself: nothing is sent at all
+    have hd : dispOf s.heap x = none := by rw [disp_exact w.toStruct]; exact hx
+    obtain ⟨_, _, a3, a4⟩ := A hd
+    refine ⟨fun posted hp hm => ?_, fun hm => ?_, n1, n2⟩
+    · rcases a4 with a4 | a4
+      · rw [a4] at hp; simp only [Res.mut.injEq] at hp; subst hp; simp at hm
+      · rw [a4] at hp; cases hp
+    · rcases a3 y hm with h1 | h1
+      · exact h1
+      · exact absurd h1 hne
+  · -- the changed object belongs to a font: so does everything that is reached
+    obtain ⟨c1, c2⟩ := change_reaches_only_linked s w x
+    have key : Reach s x y → False := fun r => by
+      have := reach_in_font w r hx
+      rw [show centreOf s.heap y = none from hy] at this
+      exact hx this.symm
+    exact ⟨fun posted hp hm => key (c1 posted hp y hm), fun hm => (c2 y hm).resolve_right key, n1, n2⟩
+
+/-! ## 10. Non-vacuity of sections 7–9 -/
+
+/-- font 0 (layer set 1, layer 2, lib 3), glyph 4 "A" with contour 5, glyph 6 "C" with component 7 that names "A"
+and image 8 -/
+def xdemo : State := xrun {} [.base .newFont, .base (.newGlyph 2 "A"), .base (.new .contour), .base (.insert 4 5),
+  .base (.newGlyph 2 "C"), .newComp (some "A"), .base (.insert 6 7), .base (.touch 6 .image)]
+
+example : Wired xdemo.heap := xwired_reachable _
+/-- the component observes glyph object 4 and layer 2, the image layer 2 and the image set of font 0: ten rows -/
+example : watchOf xdemo 7 = some (.glyph 2 4) ∧ imageWatch xdemo.heap 8 = some (2, 0) ∧ (crossTable xdemo).length = 10 := by
+  decide
+/-- the hypotheses of `cross_links_exact` and `image_links_exact` hold for component 7 and image 8 -/
+example : xdemo.heap.kindOf 0 = some .font ∧ 1 ∈ xdemo.heap.kidsOf 0 ∧ xdemo.heap.kindOf 1 = some .layerSet ∧
+    2 ∈ xdemo.heap.kidsOf 1 ∧ 6 ∈ xdemo.heap.kidsOf 2 ∧ xdemo.heap.kindOf 6 = some .glyph ∧ 7 ∈ xdemo.heap.kidsOf 6 ∧
+    xdemo.heap.kindOf 7 = some .component ∧ 8 ∈ xdemo.heap.kidsOf 6 ∧ xdemo.heap.kindOf 8 = some .image ∧
+    xdemo.baseOf 7 = some "A" ∧ xdemo.heap.findNamed 2 .glyph "A" = some 4 := by decide
+/-- `in_font_iff_listed`: component 7 belongs to font 0, being listed by glyph 6, which does -/
+example : centreOf xdemo.heap 7 = some 0 ∧ 7 ∈ xdemo.heap.kidsOf 6 ∧ centreOf xdemo.heap 6 = some 0 := by decide
+/-- a change of the base glyph's contour 5 travels along the live links: contour 5 → glyph 4 → component 7 → glyph 6 -/
+example : Reach xdemo 5 6 :=
+  Reach.up (p := 4) (by decide) (Reach.follow (c := 7) (by decide) (Reach.up (p := 6) (by decide) (Reach.refl _)))
+/-- … and is heard: glyph 6 posts `Glyph.Changed` (and its layer, layer set and font follow), then glyph 4 does -/
+example : (xstep (xstep xdemo (.base .clean)).1 (.base (.mutate 5))).2 = .mut [5, 6, 2, 1, 0, 4, 2, 1, 0] := by decide
+
+/-- the component removed: it belongs to no font, no registration mentions it, changing it is silent, and a
+change of its former base glyph does not reach its former glyph 6 any more -/
+def xremoved : State := xrun xdemo [.base (.remove 6 7), .base .clean]
+example : xdemo.heap.kindOf 6 = some .glyph ∧ xdemo.heap.ownerOf 7 = some 6 := by decide
+example : Outside xremoved.heap 7 ∧ dispOf xremoved.heap 7 = none ∧ (xmutate xremoved 7).2 = .mut [] ∧
+    (xstep xremoved (.base (.mutate 5))).2 = .mut [5, 4, 2, 1, 0] ∧ (crossTable xremoved).length = 4 := by
+  unfold Outside; decide
+example : ¬ Mentioned xremoved 7 := by unfold Mentioned; decide
+/-- (the hypotheses of `loose_unmentioned`: the removed component points to no owner and is not a font) -/
+example : xremoved.heap.ownerOf 7 = none ∧ xremoved.heap.kindOf 7 ≠ some .font := by decide
+
+/-- the base glyph replaced by `newGlyph` over its name: the component observes the new object 9; the replaced
+glyph 4 and its contour 5 belong to no font and are mentioned nowhere -/
+def xreplaced : State := (xstep xdemo (.base (.newGlyph 2 "A"))).1
+example : liveLayer xdemo.heap 2 = true ∧ xdemo.heap.findNamed 2 .glyph "A" = some 4 := by decide
+example : watchOf xreplaced 7 = some (.glyph 2 9) ∧ Outside xreplaced.heap 4 ∧ Outside xreplaced.heap 5 := by
+  unfold Outside; decide
+example : ¬ Mentioned xreplaced 4 ∧ ¬ Mentioned xreplaced 5 := by unfold Mentioned; decide
+/-- the base glyph deleted or renamed away: the component observes the layer alone -/
+example : watchOf (xstep xdemo (.base (.delGlyph 2 "A"))).1 7 = some (.layer 2) ∧
+    watchOf (xstep xdemo (.base (.renameGlyph 4 "Q"))).1 7 = some (.layer 2) ∧
+    watchOf (xstep xdemo (.setBase 7 (some "Q"))).1 7 = some (.layer 2) ∧
+    watchOf (xstep xdemo (.setBase 7 none)).1 7 = none := by decide
+/-- the glyph with the component and the image deleted: no cross link is left -/
+example : xdemo.heap.findNamed 2 .glyph "C" = some 6 ∧ crossTable (xstep xdemo (.base (.delGlyph 2 "C"))).1 = [] := by decide
+example : ¬ Mentioned (xstep xdemo (.base (.delGlyph 2 "C"))).1 7 ∧ ¬ Mentioned (xstep xdemo (.base (.delGlyph 2 "C"))).1 8 := by
+  unfold Mentioned; decide
+/-- the component decomposed: the base glyph's contour is copied (object 9), the component is let go -/
+example : layerOf xdemo.heap 6 = some 2 ∧ (xstep xdemo (.decompose 6 7)).2 = .ok ∧
+    (xstep xdemo (.decompose 6 7)).1.heap.kidsOf 6 = [8, 9] ∧ ¬ Mentioned (xstep xdemo (.decompose 6 7)).1 7 := by
+  unfold Mentioned; decide
+
+/-- a layer "back" (4) with the base glyph 5 created BEFORE the glyph 6 whose component 7 observes it, and an image 8:
+deleting the layer leaves no registration that mentions any of them -/
+def xlayer : State := xrun {} [.base .newFont, .base (.newLayer 0 "back"), .base (.newGlyph 4 "A"), .base (.newGlyph 4 "C"),
+  .newComp (some "A"), .base (.insert 6 7), .base (.touch 6 .image)]
+example : layerSetOfFont xlayer.heap 0 = some 1 ∧ xlayer.heap.findNamed 1 .layer "back" = some 4 ∧
+    watchOf xlayer 7 = some (.glyph 4 5) := by decide
+example : crossTable (xstep xlayer (.base (.delLayer 0 "back"))).1 = [] ∧
+    ¬ Mentioned (xstep xlayer (.base (.delLayer 0 "back"))).1 5 ∧ ¬ Mentioned (xstep xlayer (.base (.delLayer 0 "back"))).1 7 ∧
+    ¬ Mentioned (xstep xlayer (.base (.delLayer 0 "back"))).1 8 := by
+  unfold Mentioned; decide
+
+/-! ## 11. The wiring is kept, not computed: registrations established and dropped at the code's events -/
+
+/-- The layer announcements are complete.  `announced` lists what an operation tells the components of a layer —
+`Layer.GlyphAdded` (newGlyph, insertGlyph), `Layer.GlyphWillBeDeleted` / `GlyphDeleted` (`del layer[name]`),
+`Layer.GlyphNameChanged` with the new name and `Glyph.NameChanged` of the renamed object with the old one
+(`glyph.name = …`) —: for every (layer, glyph name) pair that is NOT announced, a layer that belongs to a font files
+the same glyph object under that name after the operation as before — whatever the operation (all 21 of
+M-Parents, `Component()`, `baseGlyph =`, loading, decomposing) and its arguments. -/
+theorem announcements_complete (s : State) (w : Wired s.heap) (op : Cross.Op) (l : Id) (n : String)
+    (kl : s.heap.kindOf l = some .layer) (al : s.heap.alive l) (hn : (l, n) ∉ announced s.heap op) :
+    (xstep s op).1.heap.findNamed l .glyph n = s.heap.findNamed l .glyph n := filing_xstep w op kl al hn
+
+/-- `synced`: the stored wiring — what each component observes, changed ONLY by the reaction of the components
+that observe the announcing layer and have the announced base glyph name (`rebind`: end, look the name up again,
+begin) and by begin / end of a component's own observation when it gets, loses or changes its place in a font
+or its base glyph name (`settle`) — equals what the tree says (`watchOf`) in every reachable state. -/
+theorem synced (ops : List Cross.Op) (c : Id) : (orun {} ops).watchAt c = watchOf (orun {} ops).st c :=
+  synced_run ops (s := {}) wired_empty synced_empty c
+
+/-- … hence the table of the stored registrations is the table of the tree, and the state it sits on is the
+state sections 7–9 are about. -/
+theorem stored_wiring_exact (ops : List Cross.Op) :
+    storedTable (orun {} ops) = crossTable (orun {} ops).st ∧ (orun {} ops).st = xrun {} ops :=
+  ⟨storedTable_eq (synced ops), orun_st ops {}⟩
+
+/-- `cross_links_exact` for the stored registrations of a reachable state: a component in the tree holds exactly
+the registrations on its layer and on the glyph object the layer files under its base glyph name. -/
+theorem cross_links_exact_stored (ops : List Cross.Op) (f ls l g c : Id)
+    (kf : (orun {} ops).st.heap.kindOf f = some .font) (hs : ls ∈ (orun {} ops).st.heap.kidsOf f)
+    (ks : (orun {} ops).st.heap.kindOf ls = some .layerSet) (hl : l ∈ (orun {} ops).st.heap.kidsOf ls)
+    (hg : g ∈ (orun {} ops).st.heap.kidsOf l) (kg : (orun {} ops).st.heap.kindOf g = some .glyph)
+    (hc : c ∈ (orun {} ops).st.heap.kidsOf g) (kc : (orun {} ops).st.heap.kindOf c = some .component) (r : XReg) :
+    (r ∈ storedTable (orun {} ops) ∧ r.observer = c) ↔
+      ∃ b, (orun {} ops).st.baseOf c = some b ∧
+        r ∈ compRows f c (Watch.of l ((orun {} ops).st.heap.findNamed l .glyph b)) := by
+  rw [(stored_wiring_exact ops).1]
+  have w : Wired (orun {} ops).st.heap := by rw [(stored_wiring_exact ops).2]; exact xwired_reachable ops
+  exact cross_links_exact (orun {} ops).st w f ls l g c kf hs ks hl hg kg hc kc r
+
+/-- `no_wiring_left` for the stored registrations: an object outside the fonts is observer or observable of none
+of them — every removal path has ended what it had to end. -/
+theorem no_wiring_left_stored (ops : List Cross.Op) (x : Id) (hx : Outside (orun {} ops).st.heap x) :
+    ∀ r ∈ storedTable (orun {} ops), r.observer ≠ x ∧ r.observable ≠ .node x := by
+  intro r hr
+  rw [(stored_wiring_exact ops).1] at hr
+  have w : Wired (orun {} ops).st.heap := by rw [(stored_wiring_exact ops).2]; exact xwired_reachable ops
+  have hm := outside_unmentioned w hx
+  exact ⟨fun e => hm (Or.inr ⟨r, hr, Or.inl e⟩), fun e => hm (Or.inr ⟨r, hr, Or.inr e⟩)⟩
+
+/-- the history of `xdemo` with the stored wiring -/
+def odemo : OState := orun {} [.base .newFont, .base (.newGlyph 2 "A"), .base (.new .contour), .base (.insert 4 5),
+  .base (.newGlyph 2 "C"), .newComp (some "A"), .base (.insert 6 7), .base (.touch 6 .image)]
+
+/-- established at the insertion: glyph object 4 and layer 2; ten stored rows -/
+example : odemo.watchAt 7 = some (.glyph 2 4) ∧ (storedTable odemo).length = 10 ∧ odemo.st.heap.alive 2 := by
+  refine ⟨by decide, by decide, ⟨_, rfl, Or.inr (by decide)⟩⟩
+/-- what `newGlyph 2 "A"` announces, and what it does not: the filing of "C" is untouched -/
+example : announced odemo.st.heap (.base (.newGlyph 2 "A")) = [(2, "A")] ∧
+    (xstep odemo.st (.base (.newGlyph 2 "A"))).1.heap.findNamed 2 .glyph "C" = some 6 := by decide
+/-- re-bound at the announcements: the base glyph replaced (new object 9), deleted, renamed away, renamed back -/
+example : (orun odemo [.base (.newGlyph 2 "A")]).watchAt 7 = some (.glyph 2 9) ∧
+    (orun odemo [.base (.delGlyph 2 "A")]).watchAt 7 = some (.layer 2) ∧
+    (orun odemo [.base (.renameGlyph 4 "Q")]).watchAt 7 = some (.layer 2) ∧
+    (orun odemo [.base (.renameGlyph 4 "Q"), .base (.renameGlyph 4 "A")]).watchAt 7 = some (.glyph 2 4) ∧
+    (orun odemo [.base (.renameGlyph 6 "Z")]).watchAt 7 = some (.glyph 2 4) := by decide
+/-- dropped at every removal, established again at the next insertion -/
+example : (orun odemo [.base (.remove 6 7)]).watchAt 7 = none ∧ (orun odemo [.decompose 6 7]).watchAt 7 = none ∧
+    (orun odemo [.base (.delGlyph 2 "C")]).watchAt 7 = none ∧ (orun odemo [.base (.clearAll 6)]).watchAt 7 = none ∧
+    (orun odemo [.base (.remove 6 7), .base (.insert 6 7)]).watchAt 7 = some (.glyph 2 4) ∧
+    (orun odemo [.setBase 7 (some "Q")]).watchAt 7 = some (.layer 2) ∧
+    (orun odemo [.setBase 7 none]).watchAt 7 = none := by decide
 
 end DefconModel.Props.C11
